@@ -13,7 +13,7 @@ Violations are recorded under the mechanisms em-shape-* and em-law-*.
 """
 import numpy as np
 
-from . import gen, ref
+from . import bus, gen, ref
 
 TOL_SHAPE = 1e-9
 TOL_LAW = 1e-9
@@ -89,7 +89,9 @@ def install_contract(ctx, on_call=None, law=True):
     real_init = getattr(real_init, '__gmv_original__', real_init)
     real_call = getattr(real_call, '__gmv_original__', real_call)
 
-    def __init__(self, refmolecule, targetmolecule, scale_factor=0.5):
+    def __init__(self, *args, **kwargs):
+        refmolecule, targetmolecule, scale_factor = bus.seen(('refmolecule', 'targetmolecule', 'scale_factor'), args, kwargs,
+                                                             {'scale_factor': 0.5})
         model = None
         try:
             # the bond graph of the model: the generator's own when it attached one to the molecule (file-based
@@ -103,16 +105,17 @@ def install_contract(ctx, on_call=None, law=True):
                           targetmolecule.atoms_positions, scale_factor)
         except Exception as exc:  # noqa
             ctx.count('em_model_not_built')
-        real_init(self, refmolecule, targetmolecule, scale_factor)
+        real_init(self, *args, **kwargs)
         self.__dict__['_gmv_model'] = model
 
-    def __call__(self, refmolecule):
+    def __call__(self, *args, **kwargs):
+        refmolecule, = bus.seen(('refmolecule',), args, kwargs)
         arg_pos = None
         try:
             arg_pos = np.array(refmolecule.atoms_positions, float)
         except Exception:  # noqa
             pass
-        out = real_call(self, refmolecule)
+        out = real_call(self, *args, **kwargs)
         try:
             model = self.__dict__.get('_gmv_model')
             if model is not None and arg_pos is not None:
